@@ -615,14 +615,7 @@ func (m *Machine) feasible(c *Term) (bool, map[string]uint64) {
 	if m.evalModel(c) == 1 {
 		return true, m.model
 	}
-	m.solver.Push()
-	m.solver.Assert(c)
-	r := m.solver.Check()
-	var mod map[string]uint64
-	if r == "sat" {
-		mod = m.solver.Model(m.nondets)
-	}
-	m.solver.Pop(1)
+	r, mod := m.checkPlain(c)
 	if r == "unknown" {
 		m.stats.unknown++
 	}
@@ -642,6 +635,9 @@ func (m *Machine) assume(c *Term) {
 	}
 	m.takeCond(c)
 	r := m.solver.Check()
+	if m.solver.dead {
+		m.rebuildSolver()
+	}
 	if r == "unsat" {
 		endPath("ASSUME", "assumption infeasible")
 	}
